@@ -27,6 +27,7 @@ def run(rep, tier, seed):
     rows = semreplay.build_rows(rep, tier)
     opts = {"props": {"C18"}, "entry_points": True, "spellings": 1, "seed": seed, "reject_cap": 6,
             "viol_confs": 8 if tier == "quick" else 3, "only_confs": None}
+    opts["signal_table"] = semreplay.signal_table(rep)
     tot = semreplay.replay(rep, rows, opts)
     report(rep, tot, "C18")
     rep.cov["exhaustive"] = True
